@@ -99,7 +99,60 @@ class Conn:
             raise Unsupported("update")
         if isinstance(stmt, sa.sql.selectable.Select):
             return self._select(stmt)
+        if isinstance(stmt, E.TextClause):
+            return self._text(stmt, params)
         raise Unsupported("statement %r" % (type(stmt).__name__,))
+
+    # ---- raw SQL text (sa.text): DELETE FROM <table> WHERE <expr> / SELECT <cols> FROM <table> [WHERE <expr>]
+    # expr := term (OR term)* ; term := factor (AND factor)* ; factor := ( expr ) | column <op> value
+    # value := :bind | 'literal' | number ;  AND binds tighter than OR, as in SQL
+    def _text(self, stmt, params):
+        from envmodel import sqlmini
+        binds = dict(params or {})
+        for k, b in getattr(stmt, "_bindparams", {}).items():
+            if k not in binds and b.value is not None:
+                binds[k] = b.value
+        text = stmt.text
+        try:
+            toks = _tokenize_text(text)
+        except sqlmini.Unsupported as e:
+            raise Unsupported("text statement: %s" % e)
+        p = _TextParser(toks, binds)
+        head = p.word()
+        if head == "delete":
+            p.expect("from")
+            table = p.word()
+            cond = None
+            if p.peek_word() == "where":
+                p.word()
+                cond = p.expr()
+            p.end()
+            keep, gone = [], []
+            for r in self.db.tables[table]:
+                (gone if (cond is None or _teval(cond, r)) else keep).append(r)
+            self.db.tables[table] = keep
+            if table == "events":
+                for g in gone:
+                    self.db.tables["tags"] = [t for t in self.db.tables["tags"] if not (t["id"] == g["id"])]
+            return Result(rowcount=len(gone))
+        if head == "select":
+            cols = []
+            while p.peek_word() != "from":
+                w = p.word()
+                if w != ",":
+                    cols.append(w)
+            p.expect("from")
+            table = p.word()
+            cond = None
+            if p.peek_word() == "where":
+                p.word()
+                cond = p.expr()
+            p.end()
+            rows = [tuple(r.get(c) for c in cols) for r in self.db.tables[table] if cond is None or _teval(cond, r)]
+            if self.db.reverse_order:
+                rows.reverse()
+            return Result(rows=rows)
+        raise Unsupported("text statement %r" % head)
 
     def _insert(self, stmt, params):
         table = stmt.table.name
@@ -194,3 +247,132 @@ class FakeDB:
 
     def connect(self):
         return _Ctx(self, False)
+
+
+def _tokenize_text(text):
+    from envmodel import sqlmini
+    toks = []
+    i, n = 0, len(text)
+    while i < n:
+        c = text[i]
+        if c in " \t\r\n":
+            i += 1
+        elif c == ":" and i + 1 < n and (text[i + 1].isalpha() or text[i + 1] == "_"):
+            j = i + 1
+            while j < n and (text[j].isalnum() or text[j] == "_"):
+                j += 1
+            toks.append(("bind", text[i + 1:j]))
+            i = j
+        else:
+            sub = sqlmini.tokenize(text[i:i + 1]) if c in "(),=<>*" and text[i:i + 2] not in (">=", "<=", "<>", "!=") else None
+            if sub is not None:
+                toks.append(sub[0])
+                i += 1
+            elif text[i:i + 2] in (">=", "<=", "<>", "!="):
+                toks.append(("op", text[i:i + 2]))
+                i += 2
+            else:
+                # identifiers, numbers, string literals: let sqlmini read one token
+                j = i
+                if c == "'":
+                    j = i + 1
+                    while j < n:
+                        if text[j] == "'" and text[j:j + 2] != "''":
+                            break
+                        j += 2 if text[j:j + 2] == "''" else 1
+                    j += 1
+                else:
+                    while j < n and (text[j].isalnum() or text[j] in "_."):
+                        j += 1
+                    if j == i:
+                        raise sqlmini.Unsupported("character %r" % c)
+                toks.extend(sqlmini.tokenize(text[i:j]))
+                i = j
+    return toks
+
+
+class _TextParser:
+    def __init__(self, toks, binds):
+        self.t, self.i, self.binds = toks, 0, binds
+
+    def peek(self):
+        return self.t[self.i] if self.i < len(self.t) else ("eof", None)
+
+    def peek_word(self):
+        k, v = self.peek()
+        return v.lower() if k == "id" else (v if k == "op" else None)
+
+    def word(self):
+        k, v = self.peek()
+        if k not in ("id", "op"):
+            raise Unsupported("unexpected token %r" % ((k, v),))
+        self.i += 1
+        return v.lower() if k == "id" else v
+
+    def expect(self, w):
+        if self.word() != w:
+            raise Unsupported("expected %r" % w)
+
+    def end(self):
+        if self.peek()[0] != "eof":
+            raise Unsupported("trailing tokens %r" % (self.t[self.i:],))
+
+    def expr(self):
+        node = self.term()
+        while self.peek_word() == "or":
+            self.word()
+            node = ("or", node, self.term())
+        return node
+
+    def term(self):
+        node = self.factor()
+        while self.peek_word() == "and":
+            self.word()
+            node = ("and", node, self.factor())
+        return node
+
+    def factor(self):
+        if self.peek() == ("op", "("):
+            self.i += 1
+            node = self.expr()
+            if self.peek() != ("op", ")"):
+                raise Unsupported("missing )")
+            self.i += 1
+            return node
+        col = self.word().split(".")[-1]
+        op = self.word()
+        if op not in ("=", "<", ">", ">=", "<=", "<>", "!="):
+            raise Unsupported("operator %r" % op)
+        k, v = self.peek()
+        self.i += 1
+        if k == "bind":
+            if v not in self.binds:
+                raise Unsupported("unbound parameter :%s" % v)
+            val = self.binds[v]
+        elif k in ("str", "num", "blob"):
+            val = bytes.fromhex(v) if k == "blob" else v
+        else:
+            raise Unsupported("value %r" % ((k, v),))
+        return ("cmp", col, op, val)
+
+
+def _teval(node, row):
+    if node[0] == "or":
+        return _teval(node[1], row) or _teval(node[2], row)
+    if node[0] == "and":
+        return _teval(node[1], row) and _teval(node[2], row)
+    _, col, op, val = node
+    if col not in row:
+        raise Unsupported("unknown column %r" % col)
+    lv = row[col]
+    if op == "=":
+        return lv == val
+    if op in ("<>", "!="):
+        return lv != val
+    if op == "<":
+        return lv < val
+    if op == ">":
+        return lv > val
+    if op == ">=":
+        return lv >= val
+    return lv <= val
